@@ -16,6 +16,9 @@ import (
 
 var sessionMaxAge = time.Hour
 
+// maxPasswordLength is the longest password, in bytes, that bcrypt can hash.
+const maxPasswordLength = 72
+
 // GetSession returns the *Session for this request.
 //
 // If the remote user has specified a username and password in the request
@@ -41,7 +44,14 @@ func (s *Server) GetSession(w http.ResponseWriter, r *http.Request, req *saml.Id
 			return nil
 		}
 
-		if err := bcrypt.CompareHashAndPassword(user.HashedPassword, []byte(r.PostForm.Get("password"))); err != nil {
+		// bcrypt reads only the first 72 bytes of its input and refuses to hash anything longer,
+		// so a longer string is never a stored password and must not match one it merely begins with.
+		password := []byte(r.PostForm.Get("password"))
+		err := bcrypt.CompareHashAndPassword(user.HashedPassword, password)
+		if err == nil && len(password) > maxPasswordLength {
+			err = bcrypt.ErrPasswordTooLong
+		}
+		if err != nil {
 			s.logger.Printf("ERROR: Invalid password for user '%s'", r.PostForm.Get("user"))
 			s.sendLoginForm(w, req, "Invalid username or password")
 			return nil
